@@ -374,6 +374,9 @@ func (vm *VirtualMachine) eval(ctx context.Context) error {
 			frame := &vm.frames[frameIndex]
 			locals := frame.CaptureLocals()
 			vm.push(object.NewCell(&locals[symbolIndex]))
+		case op.LoadCell:
+			idx := vm.fetch()
+			vm.push(vm.activeFrame.fn.FreeVars()[idx])
 		case op.Nil:
 			vm.push(object.Nil)
 		case op.True:
